@@ -497,14 +497,12 @@ def routine_defaults_and_dispatch(ctx, rule='C19-R8'):
         q = f'{MOD}.{name}'
         f = p.func(q, rule)
         ctx.saw(f)
-        a = f.node.args
-        pos = a.posonlyargs + a.args
-        dflt = dict(zip([x.arg for x in pos[len(pos) - len(a.defaults):]], a.defaults))
-        dflt.update({x.arg: d for x, d in zip(a.kwonlyargs, a.kw_defaults) if d is not None})
-        d = dflt.get('mode')
+        from sa.rules.common import param_default, param_default_term
+        d = param_default_term(p, f, 'mode')
+        raw = param_default(f, 'mode')
         n += 1
-        ctx.check(isinstance(d, _ast.Constant) and d.value == 'do', rule, q, f.node.name, f.loc(),
-                  f"{name}: the default of `mode` is {_ast.unparse(d) if d is not None else 'missing'}: convert_kwargs derives "
+        ctx.check(d == C('do'), rule, q, f.node.name, f.loc(),
+                  f"{name}: the default of `mode` is {_ast.unparse(raw) if raw is not None else 'missing'}: convert_kwargs derives "
                   "the parameters of a scaling when no mode is given (an absent mode means 'do'), so a routine called "
                   'without a mode must scale, not un-scale', instance=f"{name}: mode defaults to 'do'")
     # dispatch
